@@ -354,8 +354,8 @@ def jobs(tier, prop):
             subs += split_by_order(s, list(zip(names, names[1:]))[:3])
         else:
             subs.append(s)
-    return pack(subs, 32 if tier == 'quick' else 128, lambda s: 1.0, f'{prop.lower()}-l', weights='distinct',
-                timeout=170 if tier == 'quick' else 1500)
+    return pack(subs, 32 if tier == 'quick' else 64, lambda s: 1.0, f'{prop.lower()}-l', weights='distinct',
+                timeout=170 if tier == 'quick' else 600)
 
 
 def bounds_text(tier, prop):
